@@ -21,7 +21,7 @@ class C12(Prop):
     named_errors = set()     # the statement names no error kind: errors agree by class
     pid = "C12"
     title = "resource tree traversal, lookup and reassembly reflect the stored directory"
-    thm_modules = ["PeliteModel.Thm.C12", "PeliteModel.Thm.C12Find", "PeliteModel.Thm.ImageLayout"]
+    thm_modules = ["PeliteModel.Thm.C12", "PeliteModel.Thm.C12Find", "PeliteModel.Thm.ImageLayout", "PeliteModel.Thm.C12Layout", "PeliteModel.Thm.Witnesses64"]
     gens = [gen_res.gen_wellformed, gen_res.gen_corrupt, gen_res.gen_small, gen_res.gen_offpath, gen_walk.gen_shared_dag]
 
     def oracle(self, op, impl, model, spec):
@@ -32,7 +32,9 @@ class C12(Prop):
             sub = words[2]
         elif words[0] == "res_raw" and len(words) > 3:
             sub = words[3]
-        elif words[0] == "grp_write":
+        elif words[0] in ("grp_write", "grp_write_chunk"):
+            sub = "grp_write"
+        if sub == "grp_write_chunk":          # a short-writing sink must receive the same file as a vector
             sub = "grp_write"
         # facts the generator knows by construction
         if w is not None:
